@@ -131,9 +131,23 @@ def run(chk, b, tier):
     from .. import parse_out as P
     from .C11 import check_formats
     cases = []
-    for i in range(60 if tier == "quick" else 600):
+    def tie_adjacent():
+        # 64-bit values next to a rounding boundary of the table numeral (above 2^53, where a detour through float64 moves them)
+        r = rng.random()
+        if r < 0.4:
+            e = rng.choice([15, 16, 17, 18])
+            u = 10 ** (e - 2)
+            return rng.randrange(100, 1000) * u + u // 2 + rng.choice([-2, -1, 0, 1])
+        if r < 0.8:
+            sh = rng.choice([50, 53, 56, 60])
+            return (((2 * rng.randrange(100, 1000) + 1) << sh) // 200) + rng.choice([-1, 0, 1, 2])
+        return 2 ** 64 - rng.randint(1, 1100)
+    for i in range(120 if tier == "quick" else 2000):
         fields = {k: min(O.CAPS[k], rng.choice([0, 7, 123, 999, 1000, 1023, 1024, 12500, 99999, 10 ** 6 + 1, rng.getrandbits(rng.randint(1, 63))]))
                   for k in O.CAPS}
+        for k in O.CAPS:
+            if O.CAPS[k] > 2 ** 32 and rng.random() < 0.7:
+                fields[k] = min(O.CAPS[k], tie_adjacent())
         nm = lambda base: base + "-" + "w" * rng.choice([0, 10, 18, 20, 22, 24, 25, 28, 33, 50])
         groups = [{"symbol": "", "name": "Refs"}, {"symbol": "g1", "name": nm("One")}, {"symbol": "g1.sub", "name": nm("Sub")},
                   {"symbol": "g2", "name": nm("Two")}]
